@@ -594,7 +594,12 @@ fn adaptive_stream(
                 }
             } else {
                 let i = held[rng.below(held.len())];
-                apply(&mut run, &mut evs, SEv::Drop(i));
+                // now and then the FnRef is dropped while a panic of the consumer unwinds
+                if rng.chance(1, 8) {
+                    apply(&mut run, &mut evs, SEv::DropUnwind(i));
+                } else {
+                    apply(&mut run, &mut evs, SEv::Drop(i));
+                }
             }
         } else {
             apply(&mut run, &mut evs, SEv::Next);
